@@ -226,30 +226,7 @@ func ruleUnlinkedOpenerLeavesTree(w *World, r *Report) {
 				n++
 				x := nodeRoot(c.Common().Args[1])
 				key := fmt.Sprintf("%s: unlinked opener %s leaves the tree", w.FnKey(fn), stableName(x))
-				disposes := func(i ssa.Instruction) bool {
-					cc, ok := i.(ssa.CallInstruction)
-					if !ok {
-						return false
-					}
-					com := cc.Common()
-					name := callName(cc)
-					var old ssa.Value
-					switch name {
-					case "MergeOrReplaceTextSegment":
-						if len(com.Args) >= 2 {
-							old = com.Args[1]
-						}
-					case "ReplaceChild", "RemoveChild":
-						args := com.Args
-						if !com.IsInvoke() && len(args) > 0 {
-							args = args[1:]
-						}
-						if len(args) >= 2 {
-							old = args[1]
-						}
-					}
-					return old != nil && nodeRoot(old) == x
-				}
+				disposes := func(i ssa.Instruction) bool { return w.disposesNode(i, x, 0) }
 				leak := ""
 				seen := map[*ssa.BasicBlock]bool{}
 				var dfs func(bb *ssa.BasicBlock, from int)
@@ -286,4 +263,70 @@ func ruleUnlinkedOpenerLeavesTree(w *World, r *Report) {
 		}
 	}
 	r.Expect("calls unlinking a bracket opener", n, 1)
+}
+
+// disposesNode: the instruction takes node x out of the tree — directly (x is the node to replace/remove in
+// MergeOrReplaceTextSegment / ReplaceChild / RemoveChild) or by handing x to a module function that does so with
+// that parameter on every path to its returns (an extracted "give up this opener" helper).
+func (w *World) disposesNode(i ssa.Instruction, x ssa.Value, depth int) bool {
+	cc, ok := i.(ssa.CallInstruction)
+	if !ok || depth > 3 {
+		return false
+	}
+	com := cc.Common()
+	var old ssa.Value
+	switch callName(cc) {
+	case "MergeOrReplaceTextSegment":
+		if len(com.Args) >= 2 {
+			old = com.Args[1]
+		}
+	case "ReplaceChild", "RemoveChild":
+		args := com.Args
+		if !com.IsInvoke() && len(args) > 0 {
+			args = args[1:]
+		}
+		if len(args) >= 2 {
+			old = args[1]
+		}
+	}
+	if old != nil && nodeRoot(old) == x {
+		return true
+	}
+	cal := com.StaticCallee()
+	if cal == nil || !w.InModule(cal) || cal.Blocks == nil {
+		return false
+	}
+	for ai, a := range com.Args {
+		if nodeRoot(a) != x || ai >= len(cal.Params) {
+			continue
+		}
+		p := ssa.Value(cal.Params[ai])
+		// every path from the callee's entry to a return passes a disposing instruction on p
+		leak := false
+		seen := map[*ssa.BasicBlock]bool{}
+		var dfs func(b *ssa.BasicBlock)
+		dfs = func(b *ssa.BasicBlock) {
+			if leak || seen[b] {
+				return
+			}
+			seen[b] = true
+			for _, in := range b.Instrs {
+				if w.disposesNode(in, p, depth+1) {
+					return
+				}
+				if _, isRet := in.(*ssa.Return); isRet {
+					leak = true
+					return
+				}
+			}
+			for _, s := range b.Succs {
+				dfs(s)
+			}
+		}
+		dfs(cal.Blocks[0])
+		if !leak {
+			return true
+		}
+	}
+	return false
 }
